@@ -151,6 +151,8 @@ struct Th
   bool notified = false;
   long waitInst = 0;
   long long deadlineAdv = 0; // virtual advance needed for this timed wait to be over
+  long long wakeAt = 0;      // earliest-deadline-first idle policy: virtual time at which this low-priority step is due
+  int yieldStreak = 0;
   std::atomic<int> go{0};
   int grantKind = 0; // 0 normal, 1 timeout
   pthread_t pth{};
@@ -207,6 +209,7 @@ struct Global
   // virtual time for registered threads: frozen at reset, advanced only by timed-out waits and sleeps
   long long mono0 = 0, real0 = 0;
   std::atomic<long long> vadv{0};
+  std::atomic<long> unfairJumps{0};
 };
 Global *G = nullptr;
 thread_local Th *t_cur = nullptr;
@@ -244,6 +247,17 @@ int atPoint(Th *t, int op, void *a, void *b, bool timed, const char *label = nul
     t->b = b;
     t->timed = timed;
     t->label = label ? label : "";
+    if (op == OpYield)
+    {
+      // a spinning thread is treated as sleeping for a tiny, exponentially growing virtual time (1 us .. 100 ms): it never
+      // starves sleepers and timed waiters, and they never overtake it by more than that
+      long long back = 1000LL << (t->yieldStreak < 17 ? t->yieldStreak : 17);
+      if (back > 100000000LL) back = 100000000LL;
+      t->wakeAt = G->vadv.load() + back;
+      ++t->yieldStreak;
+    }
+    else if (op != OpSleep && op != OpResume)
+      t->yieldStreak = 0;
     t->state = AtPoint;
     g = t->go.load(std::memory_order_relaxed);
   }
@@ -395,6 +409,7 @@ int doCondWait(Th *t, pthread_cond_t *c, pthread_mutex_t *m, bool timed, long lo
 {
   atPoint(t, OpCvWait, c, m, timed);
   t->deadlineAdv = deadlineAdv;
+  t->wakeAt = deadlineAdv;
   // granted: atomically (w.r.t. the schedule: nobody else runs) release the mutex and park
   r_mutex_unlock(m);
   int g;
@@ -645,6 +660,7 @@ int sched_yield(void)
   Th *t = cur();
   if (!t) return r_yield();
   atPoint(t, OpYield, nullptr, nullptr, false);
+  if (G->opt.earliestDeadlineFirst) advanceTo(t->wakeAt);
   return 0;
 }
 
@@ -653,8 +669,12 @@ int nanosleep(const struct timespec *req, struct timespec *rem)
   if (!g_resolved) resolve();
   Th *t = cur();
   if (!t) return r_nanosleep(req, rem);
+  t->wakeAt = G->vadv.load() + tsNs(req);
   atPoint(t, OpSleep, nullptr, nullptr, false);
-  G->vadv.fetch_add(tsNs(req));
+  if (G->opt.earliestDeadlineFirst)
+    advanceTo(t->wakeAt);
+  else
+    G->vadv.fetch_add(tsNs(req));
   if (rem) rem->tv_sec = 0, rem->tv_nsec = 0;
   return 0;
 }
@@ -664,9 +684,10 @@ int clock_nanosleep(clockid_t clk, int flags, const struct timespec *req, struct
   if (!g_resolved) resolve();
   Th *t = cur();
   if (!t) return r_clock_nanosleep(clk, flags, req, rem);
+  t->wakeAt = (flags & TIMER_ABSTIME) ? tsNs(req) - (clk == CLOCK_REALTIME ? G->real0 : G->mono0) : G->vadv.load() + tsNs(req);
   atPoint(t, OpSleep, nullptr, nullptr, false);
-  if (flags & TIMER_ABSTIME)
-    advanceTo(tsNs(req) - (clk == CLOCK_REALTIME ? G->real0 : G->mono0));
+  if ((flags & TIMER_ABSTIME) || G->opt.earliestDeadlineFirst)
+    advanceTo(t->wakeAt);
   else
     G->vadv.fetch_add(tsNs(req));
   if (rem) rem->tv_sec = 0, rem->tv_nsec = 0;
@@ -678,8 +699,12 @@ int usleep(useconds_t us)
   if (!g_resolved) resolve();
   Th *t = cur();
   if (!t) return r_usleep(us);
+  t->wakeAt = G->vadv.load() + (long long)us * 1000LL;
   atPoint(t, OpSleep, nullptr, nullptr, false);
-  G->vadv.fetch_add((long long)us * 1000LL);
+  if (G->opt.earliestDeadlineFirst)
+    advanceTo(t->wakeAt);
+  else
+    G->vadv.fetch_add((long long)us * 1000LL);
   return 0;
 }
 
@@ -842,6 +867,26 @@ Result run()
         if (y == x) return true;
       return false;
     };
+    // earliest-deadline-first: of the low-priority candidates only those that are due first are eligible (for the random
+    // choice, the non-preemptive default and the alternatives recorded for the DFS); an explicit plan may still name any
+    std::vector<int> lowDue = low;
+    if (G->opt.earliestDeadlineFirst && low.size() > 1)
+    {
+      long long best = 0;
+      lowDue.clear();
+      Lock l;
+      for (int id : low)
+      {
+        long long w = G->th[id]->wakeAt;
+        if (lowDue.empty() || w < best)
+        {
+          best = w;
+          lowDue.assign(1, id);
+        }
+        else if (w == best)
+          lowDue.push_back(id);
+      }
+    }
     int pick = -1;
     int kind = 0;
     bool fromPlan = false;
@@ -936,6 +981,8 @@ Result run()
                          (int)(nextRand() % 1000) < G->opt.timeoutPermille;
         if (!normal.empty() && !preferLow)
           pick = normal[nextRand() % normal.size()];
+        else if (!preferLow)
+          pick = lowDue[nextRand() % lowDue.size()];
         else
           pick = low[nextRand() % low.size()];
       }
@@ -949,8 +996,8 @@ Result run()
         else
         {
           // rotate among low-priority threads so that a spinning thread cannot starve the others
-          pick = low[0];
-          for (int x : low)
+          pick = lowDue[0];
+          for (int x : lowDue)
             if (x > last)
             {
               pick = x;
@@ -959,6 +1006,13 @@ Result run()
         }
       }
       if (inVec(low, pick) && !inVec(normal, pick)) kind = kinds[pick];
+    }
+    // a time-out or sleep taken while another thread could run, or ahead of an earlier deadline, moves virtual time
+    // "unfairly": the oracle's real-time rules do not judge intervals that contain one
+    if (inVec(low, pick) && !inVec(normal, pick) && (!normal.empty() || !inVec(lowDue, pick)))
+    {
+      Lock l;
+      if (G->th[pick]->wakeAt > G->vadv.load()) G->unfairJumps.fetch_add(1);
     }
     (void)fromPlan;
     Step s;
@@ -975,7 +1029,7 @@ Result run()
         s.op = opName(u->op);
     }
     s.enabled = normal;
-    for (int x : low) s.enabled.push_back(x);
+    for (int x : lowDue) s.enabled.push_back(x);
     res.steps.push_back(std::move(s));
     last = pick;
     grant(G->th[pick].get(), kind);
@@ -990,6 +1044,7 @@ void point(const char *label)
 }
 
 long long virtualAdvanceNs() { return G ? G->vadv.load() : 0; }
+long unfairJumps() { return G ? G->unfairJumps.load() : 0; }
 void advanceVirtualNs(long long ns)
 {
   if (G) G->vadv.fetch_add(ns);
